@@ -137,7 +137,9 @@ type pmachine struct {
 
 	// pre-drawn plan for the in-mutex point "transfer-send"
 	cancelAtTransfer int // -1 = never; else on the n-th transfer
+	deadAtTransfer   int // -1 = never; else on the n-th transfer every goroutine parked at "dead-entry" is released
 	transfers        int
+	script           []string // action names to perform first (a directly constructed prefix), then drawn actions
 }
 
 func (m *pmachine) violate(f string, a ...any) {
@@ -167,7 +169,7 @@ func (m *pmachine) note(f string, a ...any) {
 var parkPoints = []string{"dead-entry", "release-entry", "acquire-created", "acquire-wait", "acquire-stuck", "acquire-giveup"}
 
 func newPMachine(t *rapid.T) *pmachine {
-	m := &pmachine{t: t, classes: map[string]bool{}, cancelAtTransfer: -1}
+	m := &pmachine{t: t, classes: map[string]bool{}, cancelAtTransfer: -1, deadAtTransfer: -1}
 	m.max = int64(rapid.SampledFrom([]int{1, 1, 2, 3, 0}).Draw(t, "max"))
 	var hooks []string
 	for _, p := range parkPoints {
@@ -179,8 +181,23 @@ func newPMachine(t *rapid.T) *pmachine {
 		m.cancelAtTransfer = rapid.SampledFrom([]int{0, 0, 1, 2}).Draw(t, "nthTransfer")
 	}
 	m.allowClose = rapid.IntRange(0, 3).Draw(t, "allowClose") == 0
-	m.sched = pbt.NewSched(hooks...)
+	if rapid.Bool().Draw(t, "deadAtTransfer") {
+		m.deadAtTransfer = rapid.SampledFrom([]int{0, 0, 1}).Draw(t, "nthTransferDead")
+	}
 	ncallers := rapid.IntRange(1, 5).Draw(t, "callers")
+	if rapid.IntRange(0, 9).Draw(t, "scripted") == 0 {
+		// A state that needs about ten specific steps, built directly: two live
+		// connections at the limit, one dies in use and its death is reported both
+		// by its supervisor and by the invocation that ran on it (both stopped at
+		// the entry of dead), while a third caller waits for a connection; the
+		// release of the other connection then hands it over, and the two death
+		// reports are let go while that hand-over holds the DC mutex.
+		m.max, hooks, ncallers = 2, []string{"dead-entry"}, rapid.IntRange(3, 5).Draw(t, "scriptedCallers")
+		m.cancelAtTransfer, m.deadAtTransfer, m.allowClose = -1, 0, false
+		m.script = []string{"start(0)", "ready(1)", "start(1)", "ready(2)", "start(2)", "kill(1)", "finish(0@1:retryable)", "finish(1@2:ok)"}
+		m.classes["scripted:double-death-report-during-handover"] = true
+	}
+	m.sched = pbt.NewSched(hooks...)
 	for i := 0; i < ncallers; i++ {
 		c := &pcaller{idx: i}
 		c.ctx, c.cancel = context.WithCancel(context.Background())
@@ -221,6 +238,26 @@ func (m *pmachine) hook(point string, id int64) {
 			}
 		}
 		m.mu.Unlock()
+		m.mu.Lock()
+		deadNow := n == m.deadAtTransfer
+		m.mu.Unlock()
+		if deadNow {
+			// death reports that were stopped at the entry of dead proceed while this
+			// hand-over holds the DC mutex: they pass their entry check and queue up
+			// on the mutex together
+			for _, p := range m.sched.Waiting() {
+				if p.Name == "dead-entry" {
+					m.ev("release %s inside transfer of conn %d", p, id)
+					m.sched.Release(p)
+					m.mu.Lock()
+					m.classes["death-report-during-handover"] = true
+					m.mu.Unlock()
+				}
+			}
+			for i := 0; i < 64; i++ {
+				runtime.Gosched()
+			}
+		}
 		if doIt {
 			for _, c := range targets {
 				m.ev("cancel(caller %d) inside transfer of conn %d", c.idx, id)
@@ -370,6 +407,21 @@ func (m *pmachine) step() {
 	if len(acts) == 0 {
 		return
 	}
+	if len(m.script) > 0 {
+		want := m.script[0]
+		m.script = m.script[1:]
+		for _, a := range acts {
+			if a.name == want {
+				m.note("%s", a.name)
+				a.do()
+				synctest.Wait()
+				m.afterQuiescence()
+				return
+			}
+		}
+		m.script = nil // the prefix does not apply (any more): go on with drawn actions
+		m.classes["script-abandoned"] = true
+	}
 	a := acts[rapid.IntRange(0, len(acts)-1).Draw(t, "action")]
 	m.note("%s", a.name)
 	a.do()
@@ -495,6 +547,33 @@ func (m *pmachine) probe() {
 	}
 	m.mu.Unlock()
 	m.classes["probed"] = true
+	if m.max >= 1 {
+		// limit probe (C27): one caller more than the limit; it has to wait, the
+		// number of live connections stays within the limit
+		c := &pcaller{idx: len(m.callers)}
+		c.ctx, c.cancel = context.WithCancel(context.Background())
+		m.mu.Lock()
+		m.callers = append(m.callers, c)
+		m.mu.Unlock()
+		m.startCaller(c)
+		for i := 0; i < 3; i++ {
+			synctest.Wait()
+			m.mu.Lock()
+			for _, k := range m.conns {
+				if k.runStarted && !k.runExited && !k.killed && !k.isReady {
+					k.isReady = true
+					close(k.ready)
+				}
+			}
+			m.mu.Unlock()
+		}
+		synctest.Wait()
+		m.mu.Lock()
+		if live, _, _ := m.live(); int64(live) > m.max {
+			m.violate("limit probe: %d callers ask for connections and %d connections are live, the limit is %d (the pool lost count of a live connection)", want+1, live, m.max)
+		}
+		m.mu.Unlock()
+	}
 }
 
 func (m *pmachine) teardown() {
@@ -545,7 +624,7 @@ func (m *pmachine) dump() string {
 
 func (m *pmachine) classList() []string {
 	var out []string
-	for _, k := range []string{"cancel-during-create", "cancel-during-handover", "cancel-while-waiting", "death-in-use", "death-while-caller-waits", "probed", "invoke-on-unready"} {
+	for _, k := range []string{"cancel-during-create", "cancel-during-handover", "cancel-while-waiting", "death-in-use", "death-while-caller-waits", "probed", "invoke-on-unready", "death-report-during-handover", "scripted:double-death-report-during-handover", "script-abandoned"} {
 		if m.classes[k] {
 			out = append(out, k)
 		}
